@@ -50,9 +50,9 @@ type handP struct {
 
 func handCases(prop, tier string, seed uint64) []Case {
 	r := newRand(subSeed(seed, prop, tier))
-	n, steps := 500, 15
+	n, steps := 6000, 15
 	if tier == "thorough" {
-		n, steps = 8000, 30
+		n, steps = 80000, 30
 	}
 	cfgs := someCfgs(r, 8)
 	if tier == "thorough" {
